@@ -1,5 +1,6 @@
 """Builds the corpus against /repo's working tree, runs the real code and the Lean driver, collects results."""
-import hashlib, json, os, re, shutil, subprocess, sys, time, fcntl
+import hashlib
+import zlib, json, os, re, shutil, subprocess, sys, time, fcntl
 
 import gen, render, dumpparse, rustexpr, structure
 
@@ -145,6 +146,89 @@ def run_driver(lines, out_path=None):
     return p.stdout.splitlines()
 
 
+def run_driver_sharded(proto, chk, op_lines, shards=None):
+    """Runs the operations through several driver processes, sharded by declaration name (operations on one declaration
+    stay in order in one shard; declarations are independent of one another).  Returns (output lines without the
+    per-shard stats, merged stats line)."""
+    n = shards or int(os.environ.get("VERIF_DRIVER_SHARDS", "0")) or max(1, min(12, (os.cpu_count() or 2) - 2))
+    if len(op_lines) < 200000:
+        n = 1
+    t0 = time.time()
+    buckets = [[] for _ in range(n)]
+    if n == 1:
+        buckets[0] = op_lines
+    else:
+        idx = {}
+        for l in op_lines:
+            sp = l.find(" ", 3)
+            name = l[3:sp]
+            b = idx.get(name)
+            if b is None:
+                b = idx[name] = zlib.crc32(name.encode()) % n
+            buckets[b].append(l)
+    head = "\n".join(proto + ["profile chk=%d" % chk]) + "\n"
+    procs = []
+    for b in buckets:
+        pr = subprocess.Popen([DRIVER], stdin=subprocess.PIPE, stdout=subprocess.PIPE, stderr=subprocess.PIPE, text=True)
+        procs.append(pr)
+    import threading
+    outs = [None] * n
+
+    def feed(i):
+        o, e = procs[i].communicate(head + "\n".join(buckets[i]) + "\nstats\n")
+        outs[i] = (o, e)
+    ths = [threading.Thread(target=feed, args=(i,)) for i in range(n)]
+    for t in ths:
+        t.start()
+    for t in ths:
+        t.join()
+    out = []
+    tot = {"ops": 0, "misM": 0, "misS": 0, "skipS": 0}
+    for i in range(n):
+        if procs[i].returncode != 0:
+            raise RuntimeError("driver failed: " + outs[i][1][-2000:])
+        for l in outs[i][0].splitlines():
+            if l.startswith("stats "):
+                for kv in l.split()[1:]:
+                    k, v = kv.split("=")
+                    tot[k] = tot.get(k, 0) + int(v)
+            else:
+                out.append(l)
+    # (the declaration lines are answered by every shard; callers only look at mismatch / bad-op lines)
+    log("driver x%d %.1fs ops=%d" % (n, time.time() - t0, len(op_lines)))
+    return out, "stats ops=%d misM=%d misS=%d skipS=%d" % (tot["ops"], tot["misM"], tot["misS"], tot["skipS"])
+
+
+def pick_mismatches(out, cap):
+    """disagreements with the reference semantics (concrete failing inputs) first, then disagreements with the model and
+    uninterpretable operations; each group capped, spread over the declarations, duplicates removed"""
+    groups = {"S": {}, "M": {}, "B": {}}
+    for l in out:
+        if l.startswith("mismatch S "):
+            g = "S"
+        elif l.startswith("mismatch M "):
+            g = "M"
+        elif l.startswith("bad-op"):
+            g = "B"
+        else:
+            continue
+        m = re.search(r"(?::: |bad-op )op (\S+) ", l)
+        groups[g].setdefault(m.group(1) if m else "", {})[l] = None
+    res = []
+    for g, share in (("S", cap // 2), ("M", cap // 3), ("B", cap - cap // 2 - cap // 3)):
+        per = [list(v) for v in groups[g].values()]
+        # round-robin over the declarations so that every affected declaration is represented
+        k = 0
+        taken = 0
+        while taken < share and any(k < len(x) for x in per):
+            for x in per:
+                if k < len(x) and taken < share:
+                    res.append(x[k])
+                    taken += 1
+            k += 1
+    return res
+
+
 def ensure_driver():
     p = subprocess.run(["lake", "build", "bbdriver"], cwd=LEAN_DIR, stdout=subprocess.PIPE, stderr=subprocess.STDOUT, text=True)
     if p.returncode != 0:
@@ -166,9 +250,9 @@ def build_and_run(tier, seed, profiles=("dev",), decls_override=None):
         if os.path.exists(cache):
             with open(cache) as f:
                 return json.load(f)
-        # drop stale caches of other keys (keep the cargo target dir)
+        # drop stale caches of the same tier (keep the cargo target dir, and the other tier's cache)
         for f in os.listdir(WORK_ROOT):
-            if f.startswith("results-") and f != os.path.basename(cache):
+            if f.startswith("results-") and f != os.path.basename(cache) and ("-%s-" % tier) in f:
                 os.remove(os.path.join(WORK_ROOT, f))
         res = _build_and_run(tier, seed, profiles)
         res["key"] = key
@@ -189,8 +273,15 @@ fn main() {
     let out = std::fs::File::create(&args[1]).expect("output file");
     let seed: u64 = args[2].parse().expect("seed");
     let thorough = args.len() > 3 && args[3] == "thorough";
+    // focus mode: runner <out> <seed> <tier> <file with declaration names> <boost>
+    let mut only = std::collections::HashSet::new();
+    let mut boost = 0usize;
+    if args.len() > 5 {
+        for l in std::fs::read_to_string(&args[4]).expect("focus list").lines() { if !l.trim().is_empty() { only.insert(l.trim().to_string()); } }
+        boost = args[5].parse().expect("boost");
+    }
     std::panic::set_hook(Box::new(|_| {}));
-    let mut o = support::Out { w: std::io::BufWriter::new(out), seed, tier_thorough: thorough, lines: 0 };
+    let mut o = support::Out { w: std::io::BufWriter::new(out), seed, tier_thorough: thorough, lines: 0, only, boost };
 %s
     use std::io::Write;
     o.w.flush().unwrap();
@@ -330,7 +421,7 @@ def _build_and_run(tier, seed, profiles, decls_override=None):
             lines.append("pub fn run_all(o: &mut support::Out) {")
             if with_gen:
                 for d in ds:
-                    lines.append("    if support::catch(|| run_%s(o)).is_none() { o.line(\"RUN-PANIC %s\"); }" % (d["name"], d["name"]))
+                    lines.append("    if o.wants(\"%s\") && support::catch(|| run_%s(o)).is_none() { o.line(\"RUN-PANIC %s\"); }" % (d["name"], d["name"], d["name"]))
             lines.append("}")
             write(os.path.join(ws, "c%d" % i, "src", "gen.rs"), "\n".join(lines) + "\n")
             ranges_by_file["c%d/src/gen.rs" % i] = fn_ranges
@@ -627,11 +718,9 @@ def _build_and_run(tier, seed, profiles, decls_override=None):
         op_lines = text.splitlines()
         flags[prof] = [l for l in op_lines if not l.startswith("op ") and not l.startswith("CONST-OK")][:500]
         const_ok = sum(1 for l in op_lines if l.startswith("CONST-OK"))
-        lines = proto + ["profile chk=%d" % (1 if prof == "dev" else 0)] + [l for l in op_lines if l.startswith("op ")] + ["stats"]
-        out = run_driver(lines)
-        mismatches[prof] = [l for l in out if l.startswith("mismatch ") or l.startswith("bad-op")][:5000]
-        st = [l for l in out if l.startswith("stats ")]
-        stats[prof] = st[-1] if st else ""
+        out, stat_line = run_driver_sharded(proto, 1 if prof == "dev" else 0, [l for l in op_lines if l.startswith("op ")])
+        mismatches[prof] = pick_mismatches(out, 5000)
+        stats[prof] = stat_line
         cnt = {}
         for l in op_lines:
             if l.startswith("op "):
@@ -640,6 +729,38 @@ def _build_and_run(tier, seed, profiles, decls_override=None):
                 c[w[2]] = c.get(w[2], 0) + 1
         op_counts[prof] = cnt
     timing["driver_s"] = time.time() - t0
+
+    # ---- focus pass: search for a failing input where the correspondence is broken ----------------------------------
+    # Declarations whose emitted bodies / structure differ from the model's, or on which the model disagreed with the real
+    # code, are re-run with many more random inputs (same binary, no rebuild); the driver then compares the real results
+    # with the reference semantics. A disagreement found here is a concrete failing input on the real code.
+    t0 = time.time()
+    focus = {"declarations": [], "ops": 0, "mismatches": []}
+    suspects = []
+    for x in ast.get("differ", []) + ast.get("untranslatable", []) + struct_cmp.get("differ", []):
+        if x[0] not in suspects:
+            suspects.append(x[0])
+    for prof in mismatches:
+        for l in mismatches[prof]:
+            m = re.search(r":: op (\S+) ", l)
+            if m and m.group(1) not in suspects:
+                suspects.append(m.group(1))
+    suspects = [n for n in suspects if n in run_alive][:24]
+    if suspects and "dev" in ops:
+        exe = os.path.join(ws, "target", "debug", "runner")
+        lst = os.path.join(WORK_ROOT, "focus.txt")
+        write(lst, "\n".join(suspects) + "\n")
+        out_path = os.path.join(WORK_ROOT, "ops-focus.txt")
+        boost = 4000 if tier == "thorough" else 600
+        rp = subprocess.run([exe, out_path, str(seed + 1), tier, lst, str(boost)], stdout=subprocess.PIPE, stderr=subprocess.PIPE, text=True)
+        log("focus runner rc=%d %s on %d declarations" % (rp.returncode, rp.stdout.strip(), len(suspects)))
+        if rp.returncode == 0:
+            with open(out_path) as f:
+                op_lines = [l for l in f.read().splitlines() if l.startswith("op ")]
+            out = run_driver(proto + ["profile chk=1"] + op_lines + ["stats"])
+            focus = {"declarations": suspects, "ops": len(op_lines),
+                     "mismatches": pick_mismatches(out, 1000)}
+    timing["focus_s"] = time.time() - t0
 
     return {
         "tier": tier, "seed": seed, "profiles": list(profiles),
@@ -653,6 +774,7 @@ def _build_and_run(tier, seed, profiles, decls_override=None):
         "chains": chains,
         "ast": ast,
         "struct_cmp": struct_cmp,
+        "focus": focus,
         "const_failed": const_failed,
         "probes": probes_res,
         "const_ok": const_ok,
